@@ -27,10 +27,12 @@ func init() {
 	sim.Register(&sim.Scenario{Prop: "C16", Name: "crawler", Weight: 3, Run: func(s *sim.Sim) { runC16Crawler(s, "wide") },
 		Real: real, Stub: stub,
 		Faults: []string{"fault_dial_fail", "fault_rpc_error", "fault_dial_timeout", "fault_rpc_timeout", "fault_cancel", "time_advance",
-			"probe_dial_failure_during_crawl", "probe_partial_query_failure", "probe_crawl_multi_hop", "probe_seed_addr_from_peerstore", "probe_preconnected_peer", "probe_seed_without_address", "probe_addrless_seed_reachable_by_referral"}})
+			"probe_dial_failure_during_crawl", "probe_partial_query_failure", "probe_crawl_multi_hop", "probe_seed_addr_from_peerstore", "probe_preconnected_peer", "probe_seed_without_address", "probe_addrless_seed_reachable_by_referral",
+			"probe_new_peer_after_reply_without_news", "probe_kad_replies_differ_by_bucket"}})
 	sim.Register(&sim.Scenario{Prop: "C16", Name: "crawler-narrow", Weight: 2, Run: func(s *sim.Sim) { runC16Crawler(s, "narrow") },
 		Real: real, Stub: stub,
-		Faults: []string{"fault_dial_fail", "fault_rpc_error", "probe_dial_failure_during_crawl", "probe_partial_query_failure", "probe_crawl_queue_longer_than_workers", "probe_seed_without_address", "probe_addrless_seed_reachable_by_referral"}})
+		Faults: []string{"fault_dial_fail", "fault_rpc_error", "probe_dial_failure_during_crawl", "probe_partial_query_failure", "probe_crawl_queue_longer_than_workers", "probe_seed_without_address", "probe_addrless_seed_reachable_by_referral",
+			"probe_new_peer_after_reply_without_news", "probe_kad_replies_differ_by_bucket"}})
 	sim.Register(&sim.Scenario{Prop: "C16", Name: "crawler-dup-seeds", Weight: 1, Run: func(s *sim.Sim) { runC16Crawler(s, "dup") },
 		Real: real, Stub: stub,
 		Faults: []string{"probe_dup_seed", "probe_dup_seed_only_later_entry_has_address", "probe_seed_without_address", "probe_addrless_seed_reachable_by_referral"}})
@@ -59,6 +61,20 @@ func init() {
 // nevertheless be crawled when a later entry of the seed list carries
 // addresses for it, or when a fully and successfully queried peer names it
 // (replies carry addresses): see the must-closure in checkCrawl.
+//
+// Crawl topology (clause "a crawl queries every peer reachable from its seeds",
+// quantified "for every crawl topology"): the scripted peers answer differently
+// per request - free-form (a neighbour is named in the replies for one or two
+// arbitrary buckets, the other replies are empty) or like Kademlia servers with
+// a small reply size (drawn choice "world-kind": replies overlap and repeat,
+// an entry of a sparse table region shows up in the reply for its own bucket
+// only). Rule crawl-missed follows the peers' whole tables (every reply a peer
+// would give), so a crawl that reports a peer as queried after fetching only a
+// part of its table - stops at the first empty or repeated reply, skips
+// buckets, caps the number of requests per peer - and thereby never reaches a
+// peer of the topology is a violation. probe_new_peer_after_reply_without_news
+// counts the deliveries in which a peer names somebody new after an earlier
+// reply of it held nothing new.
 func runC16Crawler(s *sim.Sim, mode string) {
 	s.MaxSteps = 1500
 	var n int
